@@ -69,3 +69,25 @@ func init() {
 		return 0
 	}
 }
+
+func init() {
+	subcommands["debug-codec"] = func(args []string) int {
+		ensureRmsg()
+		reg, ok := regByName(args[0])
+		if !ok {
+			fmt.Println("no such message")
+			return 1
+		}
+		variant := "all-zero"
+		if len(args) > 1 {
+			variant = args[1]
+		}
+		field := 0
+		if len(args) > 2 {
+			fmt.Sscan(args[2], &field)
+		}
+		r := msgRoundTrip(reg, variant, field)
+		fmt.Printf("%+v\n", r)
+		return 0
+	}
+}
